@@ -45,7 +45,11 @@ func NodeName(i int) string { return fmt.Sprintf("n%d", i+1) }
 
 // Start starts a server (policy None, anonymous) with n Int64 variable nodes (value 0,
 // readable and writable) in namespace 1.  Port collisions are retried.
-func Start(n int) (*Srv, error) {
+func Start(n int) (*Srv, error) { return StartFn(n, nil) }
+
+// StartFn is Start with a chosen initial value per node: value(i) may also be a
+// func() *ua.DataValue, which makes node i a callback-backed variable (server.ValueFunc).
+func StartFn(n int, value func(i int) any) (*Srv, error) {
 	var last error
 	for try := 0; try < 6; try++ {
 		port, err := freePort()
@@ -63,7 +67,11 @@ func Start(n int) (*Srv, error) {
 		root.Objects().AddRef(ns.Objects(), id.HasComponent, true)
 		res := &Srv{S: s, NS: ns, URL: fmt.Sprintf("opc.tcp://127.0.0.1:%d", port)}
 		for i := 0; i < n; i++ {
-			nd := ns.AddNewVariableStringNode(NodeName(i), int64(0))
+			var v any = int64(0)
+			if value != nil {
+				v = value(i)
+			}
+			nd := ns.AddNewVariableStringNode(NodeName(i), v)
 			ns.Objects().AddRef(nd, id.HasComponent, true)
 			res.Nodes = append(res.Nodes, nd.ID())
 		}
@@ -261,11 +269,21 @@ func variantOf(v int64, kind int) *ua.Variant {
 
 // WriteKind writes number v as a variant of the given kind.
 func WriteKind(c *opcua.Client, node *ua.NodeID, v int64, kind int, timeout time.Duration) error {
+	return WriteKindTS(c, node, v, kind, time.Time{}, timeout)
+}
+
+// WriteKindTS is WriteKind with an explicit source timestamp (zero = none).
+func WriteKindTS(c *opcua.Client, node *ua.NodeID, v int64, kind int, ts time.Time, timeout time.Duration) error {
 	ctx, cancel := context.WithTimeout(context.Background(), timeout)
 	defer cancel()
+	dv := &ua.DataValue{EncodingMask: ua.DataValueValue, Value: variantOf(v, kind)}
+	if !ts.IsZero() {
+		dv.EncodingMask |= ua.DataValueSourceTimestamp
+		dv.SourceTimestamp = ts
+	}
 	resp, err := c.Write(ctx, &ua.WriteRequest{NodesToWrite: []*ua.WriteValue{{
 		NodeID: node, AttributeID: ua.AttributeIDValue,
-		Value: &ua.DataValue{EncodingMask: ua.DataValueValue, Value: variantOf(v, kind)},
+		Value: dv,
 	}}})
 	if err != nil {
 		return err
